@@ -11,6 +11,7 @@ import (
 	"flag"
 	"fmt"
 	"os"
+	"reflect"
 	"runtime/debug"
 	"sort"
 	"strconv"
@@ -107,6 +108,25 @@ func main() {
 		return
 	}
 	pc := registry[*prop]
+	if *prop == "ALL" {
+		// every distinct rule once (gap measurement on scratch variants; never a registered check)
+		pc = &propertyCheck{id: "ALL", explain: "union of all rules"}
+		seenRule := map[uintptr]bool{}
+		var ids []string
+		for id := range registry {
+			ids = append(ids, id)
+		}
+		sort.Strings(ids)
+		for _, id := range ids {
+			for _, r := range registry[id].rules {
+				k := reflect.ValueOf(r).Pointer()
+				if !seenRule[k] {
+					seenRule[k] = true
+					pc.rules = append(pc.rules, r)
+				}
+			}
+		}
+	}
 	if pc == nil {
 		fmt.Fprintf(os.Stderr, "unknown property %q\n", *prop)
 		os.Exit(2)
